@@ -5,6 +5,9 @@
 #define VERIF_C11_STUB_H
 #include "common.h"
 
+// Largest lzma_action value, from the PUBLIC enum (the private macro of common.h may be renamed or replaced).
+#define C11_ACTION_MAX ((unsigned)LZMA_FULL_BARRIER)
+
 typedef struct {
 	// script for the next call
 	size_t want_c, want_p;
@@ -80,10 +83,37 @@ c11_stub_init(lzma_stream *strm, c11_stub **handle, unsigned mask)
 {
 	lzma_next_strm_init(c11_stub_coder_init, strm, handle);
 	// like the real init functions: only ENABLE the supported actions; clearing is lzma_strm_init()'s job
-	for (unsigned a = 0; a <= LZMA_ACTION_MAX; ++a)
+	for (unsigned a = 0; a <= C11_ACTION_MAX; ++a)
 		if ((mask >> a) & 1)
 			strm->internal->supported_actions[a] = true;
 	return LZMA_OK;
+}
+
+// The private sequence enum is reported SYMBOLICALLY through the tree's own constants, in the model's order
+// (run, sync, fullflush, finish, barrier, end, error): renumbering the enum or reordering lzma_internal changes nothing.
+#define C11_NSEQ 7
+static const char *const c11_seq_names[C11_NSEQ] = { "run", "sync", "fullflush", "finish", "barrier", "end", "error" };
+
+static int c11_seq_value(unsigned k)
+{
+	switch (k) {
+	case 0: return ISEQ_RUN;
+	case 1: return ISEQ_SYNC_FLUSH;
+	case 2: return ISEQ_FULL_FLUSH;
+	case 3: return ISEQ_FINISH;
+	case 4: return ISEQ_FULL_BARRIER;
+	case 5: return ISEQ_END;
+	default: return ISEQ_ERROR;
+	}
+}
+
+// Model index (0..6) of the current sequence state, or 7 if it is none of the known constants.
+static unsigned c11_seq_index(const lzma_stream *strm)
+{
+	for (unsigned k = 0; k < C11_NSEQ; ++k)
+		if ((int)strm->internal->sequence == c11_seq_value(k))
+			return k;
+	return 7;
 }
 
 #endif
